@@ -2197,7 +2197,9 @@ def _config_str(
     macros = {}
     for (scope, selector), config in configuration_object.items():
       if _REGISTRY[selector].wrapped == macro:  # pylint: disable=comparison-with-callable
-        macros[scope, selector] = config
+        # As for other bindings, omit values that can't be parsed back.
+        if _is_literally_representable(config.get('value')):
+          macros[scope, selector] = config
     if macros:
       formatted_statements.append('# Macros:')
       formatted_statements.append('# ' + '=' * (max_line_length - 2))
